@@ -280,6 +280,9 @@ func runCheck(prop string, o *checkOpts) int {
 			if v, ok := doc["maxpaths."+o.tier]; ok {
 				ex.MaxPaths, _ = strconv.Atoi(v)
 			}
+			if v, ok := doc["qtimeout."+o.tier]; ok {
+				ex.QueryTimeoutMs, _ = strconv.Atoi(v)
+			}
 			if v, ok := doc["workers"]; ok {
 				ex.Workers, _ = strconv.Atoi(v)
 			}
@@ -377,7 +380,7 @@ func runCheck(prop string, o *checkOpts) int {
 	}
 	writeEvidence(prop, o, results, confirmed, knownHits, time.Since(t0), false, validated, validationFailed)
 	if exit == 0 {
-		incon := len(staleHarness)
+		incon := len(staleHarness) + mismatches
 		for _, r := range results {
 			incon += r.Inconclusive + len(r.Undischarged)
 			if r.Truncated {
